@@ -200,7 +200,7 @@ pub fn jobs(tier: Tier) -> Vec<Job> {
         for &spec in specs {
             let Some(case) = build_case("c09", spec, &db, &templates, &seq) else { continue };
             let bound = match (tier, seq.len()) {
-                (Tier::Quick, 2) => 2,
+                (Tier::Quick, 2) if spec == SpecId::PRAGUE => 2,
                 (Tier::Quick, _) => 1,
                 (Tier::Thorough, 2) => 3,
                 (Tier::Thorough, _) => 2,
